@@ -6,15 +6,18 @@ VERIF = os.path.dirname(os.path.dirname(os.path.abspath(__file__)))
 
 CLAIMED = {
     "C01": {
-        "text": "Lean 4 theorems (Props/C01.lean) prove for every item list and every integer that Range.validate accepts exactly "
-                "the members of some item and that the overall limits are the attained min/max or absent when an item is open; "
-                "the hand-written model of ranges.py (tokenizer fragment, token loop, limits) is tied to /repo by running model, "
-                "declarative spec and the real cutplace.ranges.Range on the same rendered descriptions (bounded-exhaustive 1-2 item sweep "
-                "plus a spelling-complete grammar stream).",
-        "note": "Trusted: Lean kernel; model faithfulness as sampled by the correspondence; the tokenizer/int()/unicode_escape fragment is "
-                "modelled, not verified. Description parsing (text -> items) is currently validated by correspondence against the spec's "
-                "render function, the proved part is items -> verdict/limits.",
-        "technique": "Lean 4 proof over hand-written model + differential correspondence (impl vs model vs spec)",
+        "text": "Lean 4 theorems (Props/C01.lean): C01_parse_render proves for every well-formed description (any number of items, lower <= upper, pairwise "
+                "disjoint) in every legal spelling (decimal / 0x-hex limits with optional minus, quoted characters, symbolic names; '...', ':' or the ellipsis "
+                "character; any blanks around tokens) that the model of Range.__init__ - str.replace, _tokenizable_description, the tokenizer fragment, "
+                "int(text, 0), the token loop with its overlap test - accepts the text and stores exactly the denoted items (three layers: Proofs/RangeNorm, "
+                "RangeLex, RangeTokens, composed in RangeParse); C01_validate_iff proves that Range.validate then accepts exactly the members of some item, "
+                "and C01_lower/upper_* that the overall limits are the attained min/max or absent when an item is open. The model is tied to /repo by running "
+                "model, declarative spec and the real cutplace.ranges.Range on the same rendered descriptions (bounded-exhaustive 1-2 item sweep plus a "
+                "spelling-complete grammar stream); the 4300-digit limit of CPython's int(), which the theorem carries as hypothesis, is probed on both sides.",
+        "note": "Trusted: Lean kernel; model faithfulness as sampled by the correspondence (the tokenizer / int() / str methods are CPython behaviour "
+                "transcribed by hand). DecimalRange has the same token loop in the model and is covered by correspondence and by Props/C02's Decimal "
+                "theorems, not by a separate parse theorem.",
+        "technique": "Lean 4 proof (parse o render = denote through lexer and token loop; membership; limits) over hand-written model + differential correspondence (impl vs model vs spec)",
         "design_ref": "DESIGN.md §6 C01",
     },
     "C03": {
